@@ -3052,9 +3052,13 @@ def unique_for_indexed_string(indices, values, return_index, return_inverse, ret
     if return_index:
         combined_result.append(np.array(unique_index)[indices_sort])
     if return_inverse:
+        # unique_inverse holds positions in first-occurrence order and indices_sort[k] is the
+        # first-occurrence position of the k-th sorted value, so map through its inverse permutation
+        sort_ranks = np.empty(len(indices_sort), dtype=np.int64)
+        sort_ranks[indices_sort] = np.arange(len(indices_sort))
         unique_inverse = np.array(unique_inverse)
         for i in range(0, len(unique_inverse)):
-            unique_inverse[i] = indices_sort[unique_inverse[i]]
+            unique_inverse[i] = sort_ranks[unique_inverse[i]]
         combined_result.append(unique_inverse)
     if return_counts:
         combined_result.append(np.array(unique_counts)[indices_sort])
